@@ -136,6 +136,7 @@ def interface(kind, path_):
 
 def one_case(case):
     truth, states, doc = case
+    names_variant = doc.endswith("+names")
     kinds = ("class", "function", "argparse_function")
     d = tempfile.mkdtemp(prefix="cddvc_c12_")
     out = []
@@ -146,10 +147,13 @@ def one_case(case):
             files[k] = fn
             # unrelated code in front of the target: a comment and a layout no code generator would produce
             pre = "# keep this comment (%s)\nUNRELATED_%s = 1\nTABLE = { 'k' :1 }\n\n\n" % (k, k.upper())
+            if doc.endswith("+names"):
+                # the targets' own names as string literals in front of them (an export list, a forward reference, a registry)
+                pre += "__all__ = ['ConfigClass', 'C', 'function_name', 'set_cli_args', 'a', 'b']\nFORWARD: 'ConfigClass' = None\nREGISTRY = {'set_cli_args': 'C.function_name', 'C': 'ConfigClass'}\n\n\n"
             if k == truth or stt == "same":
-                open(fn, "wt").write(pre + src(k if k != "argparse_function" else "argparse", "truth", doc))
+                open(fn, "wt").write(pre + src(k if k != "argparse_function" else "argparse", "truth", doc.split("+")[0]))
             elif stt == "other":
-                open(fn, "wt").write(pre + src(k if k != "argparse_function" else "argparse", "other", doc))
+                open(fn, "wt").write(pre + src(k if k != "argparse_function" else "argparse", "other", doc.split("+")[0]))
             elif stt == "empty":
                 open(fn, "wt").write("")
         args = ["sync", "--class", files["class"], "--class-name", "ConfigClass", "--function", files["function"], "--function-name", "C.function_name",
@@ -185,7 +189,7 @@ def one_case(case):
                 out.append((("target-unparsable", "truth=" + truth, "target=" + k, "state=" + stt), "%s: %s" % (type(ex).__name__, str(ex)[:100]), None))
                 continue
             if got != want:
-                out.append((("target-differs", "truth=" + truth, "target=" + k, "state=" + (stt if k != truth else "truth"), "doc=" + doc), "after sync --truth %s the %s target has %r, the truth %r" % (truth, k, got, want), None))
+                out.append((("target-differs", "truth=" + truth, "target=" + k, "state=" + (stt if k != truth else "truth"), "doc=" + doc.split("+")[0]), "after sync --truth %s the %s target has %r, the truth %r" % (truth, k, got, want), None))
             if stt in ("other", "same") and ("UNRELATED_%s = 1" % k.upper()).encode() not in (snaps[1][k] or b""):
                 out.append((("unrelated-code-lost", "truth=" + truth, "target=" + k, "state=" + stt), "the unrelated definition in the %s file is gone" % k, None))
         return out
@@ -306,6 +310,8 @@ def main(tier, write_baseline=False):
                 cases.append((truth, st3, "short"))
             cases.append((truth, ("missing", "missing", "missing"), "long"))
             cases.append((truth, ("empty", "other", "empty"), "long"))
+            cases.append((truth, ("other", "other", "other"), "short+names"))
+            cases.append((truth, ("same", "other", "missing"), "short+names"))
         res = common.tmap(one_case, cases, threads=16)
         shared = [("shared-module", t) for t in ("function", "argparse_function")]
         res += [shared_case(t) for _s, t in shared]
@@ -321,7 +327,7 @@ def main(tier, write_baseline=False):
                 fails.setdefault(tuple(key), (c, what))
         run.bounded.append({
             "name": "the real CLI `python -m cdd sync` on triples of files, two consecutive runs (bounded, NOT counted as proved)",
-            "bound": "%d cases: truth in {class, function, argparse_function} x initial state of each of the three targets in {same as truth, other interface, missing, empty} (quick: seeded third) + long (>100 column) descriptions + 2 shared-module cases (the truth's module is also the file of another kind) + cmp_ast against ast.dump equality on all ordered pairs of a 26-tree corpus; oracle: re-parse with the matching parser, unrelated definitions kept, second run byte-identical" % len(cases),
+            "bound": "%d cases: truth in {class, function, argparse_function} x initial state of each of the three targets in {same as truth, other interface, missing, empty} (quick: seeded third) + long (>100 column) descriptions + the targets' own names as string literals in front of them (export list, forward reference, registry) + 2 shared-module cases (the truth's module is also the file of another kind) + cmp_ast against ast.dump equality on all ordered pairs of a 26-tree corpus; oracle: re-parse with the matching parser, unrelated definitions kept, second run byte-identical" % len(cases),
             "rule": "one case = two CLI runs",
             "evaluations": len(cases), "distinct_nontrivial": len(cases) - raised,
             "failures": [{"class": "|".join(map(str, k)), "what": v[1][:250]} for k, v in list(fails.items())[:6]],
